@@ -47,6 +47,7 @@ func main() {
 		n = *nflag
 	}
 	var sel []*rx.Family
+	ownN := map[string][4]int{"s11": {8, 12, 3, 4}}
 	for _, f := range shapes.AllC06() {
 		if *fams != "" && !strings.Contains(","+*fams+",", ","+f.Name+",") {
 			continue
@@ -54,6 +55,17 @@ func main() {
 		fn := n
 		if r.Quick() && *nflag == 0 && f.QuickN > 0 {
 			fn = f.QuickN
+		}
+		// s11 (in-place shifts of stored slices of objects): its own menu size and maximal sequence length
+		// {n quick, n thorough, k quick, k thorough}; most of its ops are cheap and collide under state memoisation
+		if o, ok := ownN[f.Name]; ok && *nflag == 0 {
+			fn, f.K = o[0], o[2]
+			if r.Thorough() {
+				fn, f.K = o[1], o[3]
+			}
+			if *kflag > 0 {
+				f.K = 0
+			}
 		}
 		if len(f.Ops) > fn {
 			f.Ops = f.Ops[:fn]
